@@ -85,7 +85,15 @@ def run(chk: Check, repo: Repo) -> None:
         for comp, ok in want.items():
             chk.ob("protected-component-reaches-mac", fi.site(side.mac_call), ok, f"{algo}: {comp} enters the MAC computation ({allargs[:200]}...)", key=f"protected|{algo}|{comp}")
     # fall-through raises
-    chk.ob("fallthrough-raises", fi.site(), isinstance(fi.node.body[-1], ast.Raise) and "DataSecureError" in ast.unparse(fi.node.body[-1]), "unknown algorithm falls through to raise DataSecureError", key="fallthrough")
+    # an algorithm that is neither of the two ends in DataSecureError: no path falls off the end of the function (an
+    # implicit `return None` would hand "no plain APDU" to the caller as if it were one), and a DataSecureError is raised
+    # outside both algorithm branches
+    cfg_f = CFG(fi.node)
+    mf_f = cfg_f.must_facts()
+    byid = {n.id: n for n in cfg_f.nodes}
+    falls_off = [p_ for p_, _ in byid[cfg_f.exit].pred if not isinstance(byid[p_].ast, ast.Return)]
+    outside = [n for n in cfg_f.nodes if isinstance(n.ast, ast.Raise) and n.ast.exc is not None and "DataSecureError" in ast.unparse(n.ast.exc) and not any(v and "algorithm" in t and "==" in t for t, v in mf_f[n.id])]
+    chk.ob("fallthrough-raises", fi.site(), not falls_off and bool(outside), "unknown algorithm falls through to raise DataSecureError", key="fallthrough")
     for p, ok in param_flows_to_return(b0fn.node).items():
         chk.ob("block0-uses-param", b0fn.site(), ok, f"block_0 parameter `{p}` reaches the returned block", key=f"b0flow|{p}")
     # block_0: Ctrl2 octet combines only address type and frame format (disjoint bits): A000EEEE
